@@ -41,6 +41,11 @@ THEOREMS = [
     "Cv.Bitmask.bfsBitmask_returns_iff",
     "Cv.Bitmask.bfsBitmask_n16",
     "Cv.Bitmask.bfsBitmask_asserts",
+    "Cv.C11x.encoded_ibfs_layers",
+    "Cv.C11x.plain_ibfs_layers",
+    "Cv.C11x.single_word_ibfs_layers",
+    "Cv.C11x.encoded_bfsNumpy_spec",
+    "Cv.C11x.encoded_bfsNumpy_scalar",
 ]
 
 
@@ -327,7 +332,7 @@ def main():
         c = body["case"]
         {"numpy": run_numpy, "interactive": run_interactive, "walk": run_walk, "bitmask": run_bitmask}.get(c.get("engine"), run_interactive)(ck, c)
         ck.finish(rule="replay of one recorded case")
-    ck.lean_obligations(['CvProps.C11i', 'CvProps.C11e', 'CvProps.C11b'], THEOREMS)
+    ck.lean_obligations(['CvProps.C11i', 'CvProps.C11e', 'CvProps.C11b', "CvProps.C11x"], THEOREMS)
     for case in json.load(open(os.path.join(VERIF, "harness", "corpus", "C11.json"))):
         {"numpy": run_numpy, "interactive": run_interactive, "walk": run_walk, "bitmask": run_bitmask}[case["engine"]](ck, case)
         ck.count("corpus")
